@@ -252,70 +252,126 @@ def rule_alias(src, rep, base_attrs, mut_methods, rule, what, counts):
 
 
 # ---------------------------------------------------------------------------- I3 memo accessors
+def _slot_targets(st, slot):
+    """(stores_slot, other_names) for an Assign/AnnAssign statement (handles chained `c = self._slot = expr`)."""
+    tg = st.targets if isinstance(st, ast.Assign) else [st.target]
+    hit = any(is_self_attr(t, slot) for t in tg)
+    names = [t.id for t in tg if isinstance(t, ast.Name)]
+    return hit, names
+
+
 def rule_i3(src, rep, fmt_mod, counts):
+    from ..cfg import enumerate_paths
     n = 0
     for slot, acc in sorted(MEMO.items()):
         f = src.func(fmt_mod, "FmtStr." + acc)
         n += 1
-        body = [s for s in f.node.body if not (isinstance(s, ast.Expr) and isinstance(s.value, ast.Constant))]
-        stores = []
+        # stores to tracked fields other than the own slot
+        other = []
+        in_loop = []
         for node in f.own_nodes():
             for t in _store_targets(node):
                 for a in ast.walk(t):
                     if isinstance(a, ast.Attribute) and a.attr in TRACKED and isinstance(a.ctx, (ast.Store, ast.Del)):
-                        stores.append((node, a))
-        slot_stores = [(node, a) for node, a in stores if a.attr == slot and is_self_attr(a)]
-        other = [(node, a) for node, a in stores if not (a.attr == slot and is_self_attr(a))]
-        rep.ob("I3-memo-single-store", f.where(), f.scope, "stores to self.%s in %s" % (slot, acc),
-               len(slot_stores) == 1 and isinstance(slot_stores[0][0], (ast.Assign, ast.AnnAssign)),
-               "the accessor must store the complete value exactly once; found %d store(s) %s - a partially filled "
-               "slot survives an exception and is then returned as if complete"
-               % (len(slot_stores), [unparse(x[0]).split("\n")[0] for x in slot_stores]))
+                        if not (a.attr == slot and is_self_attr(a)):
+                            other.append(node)
+                        elif isinstance(node, (ast.AugAssign, ast.Delete)) or f.module.enclosing(node, (ast.For, ast.While)) is not None:
+                            in_loop.append(node)
         rep.ob("I3-memo-own-slot-only", f.where(), f.scope, "other tracked stores in %s" % acc, not other,
-               "the accessor of %s also writes %s" % (slot, [unparse(x[0]) for x in other]))
-        if len(slot_stores) != 1 or not isinstance(slot_stores[0][0], (ast.Assign, ast.AnnAssign)):
-            continue
-        st = slot_stores[0][0]
-        # position: the store is a top-level statement and only return statements follow it
-        if st not in body:
-            rep.ob("I3-memo-store-then-return", f.where(st), f.scope, unparse(st), False,
-                   "the store to the slot is nested in a branch/loop; the analysis expects compute, store, return")
-            continue
-        after = body[body.index(st) + 1:]
-        ok_after = all(isinstance(x, ast.Return) for x in after) and len(after) >= 1
-        rep.ob("I3-memo-store-then-return", f.where(st), f.scope, unparse(st), ok_after,
-               "statements other than `return` follow the store to the slot: %s" % [unparse(x).split("\n")[0] for x in after])
-        # the value: expand single-definition locals
-        defs = single_defs(f.node)
-        val = st.value
-        seen = 0
-        while isinstance(val, ast.Name) and val.id in defs and seen < 5:
-            val = defs[val.id]
-            seen += 1
-        reads = set()
-        for x in ast.walk(val):
-            if is_self_attr(x):
-                reads.add(x.attr)
-        rep.ob("I3-memo-value-from-chunks", f.where(st), f.scope, "self.%s = %s" % (slot, unparse(val)),
-               reads == {"chunks"},
-               "the memoised value must be computed from self.chunks only; it reads self.%s" % sorted(reads))
-        # the returned value is the slot or the local that was stored
-        stored_name = st.value.id if isinstance(st.value, ast.Name) else None
-        for r in after:
-            rv = unparse(r.value)
-            ok = rv == "self.%s" % slot or (stored_name is not None and rv == stored_name)
-            rep.ob("I3-memo-returns-stored", f.where(r), f.scope, unparse(r), ok,
-                   "returns `%s`, not the value just stored in self.%s" % (rv, slot))
-        # early return: every return before the store returns the slot under a test that reads only the slot
-        before = body[:body.index(st)]
-        early = [x for s in before for x in ast.walk(s) if isinstance(x, ast.Return)]
-        for r in early:
-            ifs = f.module.enclosing(r, (ast.If,))
-            test_reads = {x.attr for x in ast.walk(ifs.test) if is_self_attr(x)} if ifs is not None else set()
-            ok = unparse(r.value) == "self.%s" % slot and ifs is not None and test_reads == {slot}
-            rep.ob("I3-memo-early-return", f.where(r), f.scope, "if %s: %s" % (unparse(ifs.test) if ifs else "?", unparse(r)),
-                   ok, "the early return must hand out self.%s under a test of self.%s itself" % (slot, slot))
-        # no other function stores into this slot: covered by I1
+               "the accessor of %s also writes %s" % (slot, [unparse(x) for x in other]))
+        rep.ob("I3-memo-single-store", f.where(in_loop[0]) if in_loop else f.where(), f.scope,
+               "self.%s is stored by plain assignment outside loops" % slot, not in_loop,
+               "the slot is filled incrementally (%s): a partially filled slot survives an exception raised half way and is "
+               "then returned as if complete" % [unparse(x).split("\n")[0] for x in in_loop])
+        paths = [p for p in enumerate_paths(f.node.body) if p.feasible() and p.term == "return"]
+        if not paths:
+            raise AnalysisError("FmtStr.%s has no returning path" % acc)
+        for p in paths:
+            alias = {}          # local name -> 'slot' | 'value'
+            alias_expr = {}
+            store = None
+            after_store = []
+            ret = None
+            vexpr = None
+            for ev in p.events:
+                if ev[0] != "stmt":
+                    if store is not None and ev[0] in ("loop", "with"):
+                        after_store.append(ev[1])
+                    continue
+                st = ev[1]
+                if isinstance(st, ast.Return):
+                    ret = st
+                    continue
+                if store is not None:
+                    after_store.append(st)
+                if isinstance(st, (ast.Assign, ast.AnnAssign)) and getattr(st, "value", None) is not None:
+                    hit, names = _slot_targets(st, slot)
+                    if hit:
+                        if store is not None:
+                            rep.ob("I3-memo-single-store", f.where(st), f.scope, unparse(st), False, "the slot is stored twice on one path")
+                        store = st
+                        after_store = []
+                        vexpr = st.value
+                        for nm in names:
+                            alias[nm] = "value"
+                        if isinstance(st.value, ast.Name):
+                            alias[st.value.id] = "value"
+                    elif is_self_attr(st.value, slot):
+                        for nm in names:
+                            alias[nm] = "slot"
+                    elif names:
+                        for nm in names:
+                            alias[nm] = "value"
+                            alias_expr[nm] = st.value
+            desc = "path [%s]" % "; ".join(("%s=%s" % (unparse(e[1]), e[2])) if e[0] == "cond" else unparse(e[1]).split("\n")[0][:50]
+                                           for e in p.events if e[0] in ("cond", "stmt"))
+            if ret is None or ret.value is None:
+                rep.ob("I3-memo-returns-stored", f.where(), f.scope, desc, False, "a path returns nothing")
+                continue
+            rv = ret.value
+            if store is None:
+                ok = is_self_attr(rv, slot) or (isinstance(rv, ast.Name) and alias.get(rv.id) == "slot")
+                # the path must have tested that the cached value is present
+                tested = False
+                for c, v in p.conds():
+                    txt = unparse(c)
+                    names = ["self.%s" % slot] + [k for k, a in alias.items() if a == "slot"]
+                    for nm in names:
+                        if (txt == "%s is not None" % nm and v) or (txt == "%s is None" % nm and not v) or (txt == nm and v) or \
+                                (txt == "not %s" % nm and not v):
+                            tested = True
+                rep.ob("I3-memo-early-return", f.where(ret), f.scope, desc, ok and tested,
+                       "a path that stores nothing must return the cached self.%s and only after testing that it is set" % slot)
+                continue
+            # value computed from self.chunks only
+            reads = {x.attr for x in ast.walk(vexpr) if is_self_attr(x)}
+            src_expr = vexpr
+            if isinstance(vexpr, ast.Name):
+                # a local computed earlier on the path (every assignment to it except the read of the slot itself)
+                reads = set()
+                for ev in p.events:
+                    if ev[0] == "stmt" and isinstance(ev[1], (ast.Assign, ast.AnnAssign)) and getattr(ev[1], "value", None) is not None:
+                        hit, names = _slot_targets(ev[1], slot)
+                        if vexpr.id in names and not hit and not is_self_attr(ev[1].value, slot):
+                            src_expr = ev[1].value
+                            reads |= {x.attr for x in ast.walk(src_expr) if is_self_attr(x)}
+                # accumulations into that local (loops) also count
+                for node in f.own_nodes():
+                    if isinstance(node, ast.AugAssign) and isinstance(node.target, ast.Name) and node.target.id == vexpr.id:
+                        reads |= {x.attr for x in ast.walk(node.value) if is_self_attr(x)}
+                    if isinstance(node, (ast.For,)) and any(isinstance(x, ast.Name) and x.id == vexpr.id for x in ast.walk(node)):
+                        reads |= {x.attr for x in ast.walk(node.iter) if is_self_attr(x)}
+            rep.ob("I3-memo-value-from-chunks", f.where(store), f.scope, "self.%s = %s" % (slot, unparse(src_expr)[:80]),
+                   reads <= {"chunks"} and bool(reads),
+                   "the memoised value must be computed from self.chunks only; it reads self.%s" % sorted(reads))
+            bad_after = [x for x in after_store if not isinstance(x, (ast.Assign, ast.AnnAssign)) or
+                         any(isinstance(c, ast.Call) for c in ast.walk(x))]
+            rep.ob("I3-memo-store-then-return", f.where(store), f.scope, unparse(store).split("\n")[0], not bad_after,
+                   "between storing the slot and returning, `%s` runs: if it raises, the slot stays filled although the "
+                   "accessor failed" % (unparse(bad_after[0]).split("\n")[0] if bad_after else ""))
+            ok = is_self_attr(rv, slot) or (isinstance(rv, ast.Name) and alias.get(rv.id) == "value")
+            rep.ob("I3-memo-returns-stored", f.where(ret), f.scope, desc, ok,
+                   "returns `%s`, not the value just stored in self.%s" % (unparse(rv), slot))
     counts["memo_accessors"] = n
     # the slots are initialised to None in __init__
     init = src.func(fmt_mod, "FmtStr.__init__")
@@ -357,9 +413,33 @@ def rule_i4(src, rep, fmt_mod, counts):
 
 
 # ---------------------------------------------------------------------------- I5 / I6
-def _raises_unconditionally(fnode):
+def _raises_unconditionally(fnode, src=None, module=None, cls=None, depth=2):
+    """First statement (after a docstring) is `raise`, or a call / return of a call of a function or method of the same
+    module that itself raises unconditionally (helper such as `_refuse_mutation()`)."""
     body = [s for s in fnode.body if not (isinstance(s, ast.Expr) and isinstance(s.value, ast.Constant))]
-    return bool(body) and isinstance(body[0], ast.Raise)
+    if not body:
+        return False
+    if isinstance(body[0], ast.Raise):
+        return True
+    if src is None or depth <= 0:
+        return False
+    call = None
+    if isinstance(body[0], ast.Expr) and isinstance(body[0].value, ast.Call):
+        call = body[0].value
+    elif isinstance(body[0], ast.Return) and isinstance(body[0].value, ast.Call):
+        call = body[0].value
+    if call is None:
+        return False
+    target = None
+    if isinstance(call.func, ast.Name):
+        target = src.funcs.get((module, call.func.id))
+    elif isinstance(call.func, ast.Attribute) and isinstance(call.func.value, ast.Name) and call.func.value.id in ("self", "cls") and cls:
+        target = src.resolve_method(module, cls, call.func.attr)
+    elif isinstance(call.func, ast.Attribute) and isinstance(call.func.value, ast.Name) and cls and call.func.value.id == cls:
+        target = src.resolve_method(module, cls, call.func.attr)
+    if target is None:
+        return False
+    return _raises_unconditionally(target.node, src, target.module.name, target.cls.name if target.cls else None, depth - 1)
 
 
 def rule_i5(src, rep, fmt_mod, counts):
@@ -371,7 +451,12 @@ def rule_i5(src, rep, fmt_mod, counts):
     meths = src.methods(fmt_mod, "FrozenAttributes")
     for m in sorted(DICT_MUT):
         f = meths.get(m)
-        ok = f is not None and _raises_unconditionally(f.node)
+        if f is None:
+            # class-body alias: `pop = clear = _immutable`
+            for st in cls.body:
+                if isinstance(st, ast.Assign) and any(isinstance(t, ast.Name) and t.id == m for t in st.targets) and isinstance(st.value, ast.Name):
+                    f = meths.get(st.value.id)
+        ok = f is not None and _raises_unconditionally(f.node, src, fmt_mod, "FrozenAttributes")
         rep.ob("I5-frozen-mutator-raises", f.where() if f else src.modules[fmt_mod].where(cls), fmt_mod + ":FrozenAttributes",
                "FrozenAttributes.%s" % m, ok,
                ("dict.%s is inherited unchanged: `run.atts.%s(...)` edits a run's formatting in place and leaves the "
@@ -398,7 +483,7 @@ def rule_i5(src, rep, fmt_mod, counts):
 
 def rule_i6(src, rep, fmt_mod, counts):
     f = src.func(fmt_mod, "FmtStr.__setitem__")
-    rep.ob("I6-setitem-raises", f.where(), f.scope, "FmtStr.__setitem__", _raises_unconditionally(f.node),
+    rep.ob("I6-setitem-raises", f.where(), f.scope, "FmtStr.__setitem__", _raises_unconditionally(f.node, src, fmt_mod, "FmtStr"),
            "item assignment on a FmtStr must raise unconditionally")
     for cname in ("FmtStr", "Chunk"):
         meths = src.methods(fmt_mod, cname)
@@ -409,7 +494,7 @@ def rule_i6(src, rep, fmt_mod, counts):
                        "an in-place operator on an immutable value type changes the object other names refer to")
         for m in ("__delitem__", "__setattr__", "__delattr__"):
             if m in meths:
-                ok = _raises_unconditionally(meths[m].node)
+                ok = _raises_unconditionally(meths[m].node, src, fmt_mod, cname)
                 rep.ob("I6-no-inplace-operators", meths[m].where(), meths[m].scope, "%s.%s" % (cname, m), ok,
                        "%s.%s is defined and does not raise unconditionally" % (cname, m))
     rep.ob("I6-no-inplace-operators", src.modules[fmt_mod].where(src.cls(fmt_mod, "FmtStr")), fmt_mod + ":FmtStr",
